@@ -506,8 +506,11 @@ def gen_skip_stress(rng):
         r = rng.random()
         if r < 0.4:
             return query.And([node(depth - 1) for _ in range(rng.randint(2, 3))])
-        if r < 0.65:
+        if r < 0.6:
             return query.Or([node(depth - 1) for _ in range(rng.choice([2, 2, 3]))], boost=rng.choice([1.0, 1.0, 3.0]))
+        if r < 0.7:
+            # three or more alternatives: a DisjunctionMax matcher nested in another one
+            return query.DisjunctionMax([node(depth - 1) for _ in range(rng.choice([2, 3, 3, 4]))], boost=rng.choice([1.0, 1.0, 2.0]))
         if r < 0.8:
             return query.AndMaybe(node(depth - 1), node(depth - 1))
         if r < 0.9:
